@@ -206,7 +206,7 @@ fn ltk_case(out: &mut Out, seed: &[u8]) {
             // three Server instances from the same seed (workers / restarts)
             let mut pubs = vec![];
             for _ in 0..3 {
-                let cfg = RigCfg { seed: seed_v.clone(), batch: 64, fault: 0, per_client: false, level: "off".into() };
+                let cfg = RigCfg { seed: seed_v.clone(), batch: 64, fault: 0, per_client: false, level: "off".into(), status: None };
                 let rig = Rig::new(cfg, 0);
                 pubs.push(rig.server.get_public_key().to_string());
             }
